@@ -31,8 +31,9 @@ def _scratch(repo, workdir, names):
     unique = scratchcrate.make(repo, dst)
     os.makedirs(os.path.join(dst, 'tests', 'common'), exist_ok=True)
     shutil.copy(os.path.join(HERE, 'grid', 'common.rs'), os.path.join(dst, 'tests', 'common', 'verif_grid_common.rs'))
+    shutil.copy(os.path.join(HERE, 'grid', 'qcommon.rs'), os.path.join(dst, 'tests', 'common', 'verif_grid_qcommon.rs'))
     for n in names:
-        text = open(os.path.join(HERE, 'grid', n + '.rs')).read().replace('include!("verif_grid_common.rs");', 'include!("common/verif_grid_common.rs");')
+        text = open(os.path.join(HERE, 'grid', n + '.rs')).read().replace('include!("verif_grid_', 'include!("common/verif_grid_')
         with open(os.path.join(dst, 'tests', 'verif_grid_%s.rs' % n), 'w') as f:
             f.write(text)
     return dst, unique
